@@ -26,7 +26,7 @@ import vlib
 sys.path.insert(0, os.path.join(vlib.ROOT, "translators"))
 import c11_goto
 
-CHECKER = ("make -C coq Goto.vo GotoProofs.vo Gen_C11.vo (coqc 8.16.1 kernel; vm_compute of table_ok / addr_table_ok / "
+CHECKER = ("make -C coq Goto.vo GotoProofs.vo GotoPathProofs.vo Gen_C11.vo (coqc 8.16.1 kernel; vm_compute of table_ok / addr_table_ok / "
            "shapes_ok on the regenerated tables) ; coqc Properties_C11.v (Print Assumptions)")
 ORACLE = ("marker Descriptor_t written at the position is found by an independent cgio walk under the intended node; "
           "cg_where equals the target's label/index path; failed navigation => cg_where and node-context calls fail "
